@@ -18,7 +18,7 @@ Model (all attributes non-null so every program has a Python meaning):
 Ops (tuples; r = R id, a = attribute name):
     ('read', r, a)               value of R[r].a  (observed)
     ('write', r, a, k)           R[r].a = k
-    ('inc', r, a)                R[r].a = R[r].a + 1            (observes the old value)
+    ('inc', r, a)                R[r].a = R[r].a + 1            (observes the old value);  ('dec', r, a): - 1
     ('copy', r, a, r2, b)        R[r].a = R[r2].b + 1           (observes R[r2].b)
     ('flush',)                   flush()
     ('lock', r, how)             how in get_for_update | nowait | skip_locked | query_for_update | query_nowait
@@ -47,19 +47,36 @@ Ops (tuples; r = R id, a = attribute name):
 """
 import os, shutil, sqlite3, itertools, types
 
-R_ATTRS = ('x', 'y', 'z', 'n', 'f', 'v')
-EXEMPT_ATTRS = {'n': 'optimistic=False', 'f': 'float (RealConverter.optimistic is False)', 'v': 'volatile'}
-INIT_R = {1: {'x': 10, 'y': 20, 'z': 30, 'n': 40, 'f': 1.5, 'v': 60},
-          2: {'x': 11, 'y': 21, 'z': 31, 'n': 41, 'f': 2.5, 'v': 61}}
+# declaration order matters (attributes excluded from optimistic checks sit before, between and after checked ones):
+#   e float (unchecked by default) | x y z int | n int optimistic=False | f float | v int volatile |
+#   g float optimistic=True (checked) | d Decimal (checked) | q int (checked)
+R_ATTRS = ('e', 'x', 'y', 'z', 'n', 'f', 'v', 'g', 'd', 'q')
+EXEMPT_ATTRS = {'e': 'float (RealConverter.optimistic is False)', 'n': 'optimistic=False',
+                'f': 'float (RealConverter.optimistic is False)', 'v': 'volatile'}
+FLOAT_ATTRS = ('e', 'f', 'g')
+INIT_R = {1: {'e': 0.5, 'x': 10, 'y': 20, 'z': 30, 'n': 40, 'f': 1.5, 'v': 60, 'g': 5.5, 'd': 7.25, 'q': 70},
+          2: {'e': 0.75, 'x': 11, 'y': 21, 'z': 31, 'n': 41, 'f': 2.5, 'v': 61, 'g': 6.5, 'd': 8.25, 'q': 71}}
+
+
+def conv(a, v):
+    """Value of kind `a` made from v (used identically by the executor and by the reference interpreter)."""
+    if a in FLOAT_ATTRS or a == 'd': return float(v)
+    return int(v)
+
+
+def plain(v):
+    """Observed / stored value as a plain Python number (Decimal -> float)."""
+    import decimal
+    return float(v) if isinstance(v, decimal.Decimal) else v
 INIT_K = {1: (1, 100), 2: (1, 200), 3: (2, 300), 4: (None, 400)}        # kid -> (parent, w)
 INIT_L = {(1, 1), (2, 1), (2, 2)}                                      # (row, tag)
 LOCK_HOWS = ('get_for_update', 'nowait', 'skip_locked', 'query_for_update', 'query_nowait',
              'by_code', 'by_code_nowait', 'by_ckey', 'by_ckey_skip', 'query_skip', 'select_kw')
 
-NEW_R = {'x': 12, 'y': 22, 'z': 32, 'n': 42, 'f': 3.5, 'v': 62}
+NEW_R = {'e': 0.25, 'x': 12, 'y': 22, 'z': 32, 'n': 42, 'f': 3.5, 'v': 62, 'g': 7.5, 'd': 9.25, 'q': 72}
 ITEM_KINDS = ('iter', 'sorted', 'list', 'copy')          # collection reads that return the members themselves
 
-WRITE_OPS = ('write', 'inc', 'copy', 'delete', 'delkid', 'movekid', 'newkid', 'setw', 'addtag', 'rmtag', 'newrow')
+WRITE_OPS = ('write', 'inc', 'dec', 'copy', 'delete', 'delkid', 'movekid', 'newkid', 'setw', 'addtag', 'rmtag', 'newrow')
 
 
 class Model(object):
@@ -77,7 +94,7 @@ class Model(object):
         self.path = os.path.join(tmpdir, 'sp-work.sqlite')
         E = self._make(self.template, create=True)
         with po.db_session:
-            rows = {i: E.R(id=i, code='R%d' % i, kb=7, kc=i, **vals) for i, vals in INIT_R.items()}
+            rows = {i: E.R(id=i, code='R%d' % i, kb=7, kc=i, **self.pyvals(vals)) for i, vals in INIT_R.items()}
             tags = {t: E.T(id=t) for t in (1, 2)}
             for k, (p, w) in INIT_K.items(): E.K(id=k, parent=rows[p] if p else None, w=w)
             for r, t in sorted(INIT_L): rows[r].tags.add(tags[t])
@@ -95,14 +112,20 @@ class Model(object):
         po = self.po
         db = po.Database()
 
+        from decimal import Decimal
+
         class R(db.Entity):
             id = po.PrimaryKey(int)
+            e = po.Required(float)
             x = po.Required(int)
             y = po.Required(int)
             z = po.Required(int)
             n = po.Required(int, optimistic=False)
             f = po.Required(float)
             v = po.Required(int, volatile=True)
+            g = po.Required(float, optimistic=True)
+            d = po.Required(Decimal, 10, 2)
+            q = po.Required(int)
             code = po.Required(str, unique=True)        # secondary unique key  ('R<id>')
             kb = po.Required(int)                        # composite key (kb, kc) = (7, id)
             kc = po.Required(int)
@@ -138,6 +161,11 @@ class Model(object):
         self.E = self._make(self.path)
         self.E.db.disconnect()
 
+    @staticmethod
+    def pyvals(vals):
+        from decimal import Decimal
+        return {a: (Decimal(repr(v)) if a == 'd' else v) for a, v in vals.items()}
+
     def txn_open(self, tag):
         """From the recorder log: the session's last transaction-control event is a BEGIN that returned."""
         for e in reversed(self.rec.events):
@@ -158,7 +186,7 @@ class Model(object):
         """Committed content through an independent raw connection (a writer holding RESERVED does not block it)."""
         con = self.raw()
         try:
-            rows = {r[0]: dict(zip(R_ATTRS, r[1:])) for r in con.execute('select id, x, y, z, n, f, v from R')}
+            rows = {r[0]: dict(zip(R_ATTRS, r[1:])) for r in con.execute('select id, %s from R' % ', '.join(R_ATTRS))}
             kids = {r[0]: (r[1], r[2]) for r in con.execute('select id, parent, w from K')}
             links = {tuple(r) for r in con.execute('select r, t from R_T')}
         except sqlite3.OperationalError as e:
@@ -168,7 +196,7 @@ class Model(object):
     def final_state(self):
         con = sqlite3.connect(self.path)
         try:
-            rows = {r[0]: dict(zip(R_ATTRS, r[1:])) for r in con.execute('select id, x, y, z, n, f, v from R')}
+            rows = {r[0]: dict(zip(R_ATTRS, r[1:])) for r in con.execute('select id, %s from R' % ', '.join(R_ATTRS))}
             kids = {r[0]: (r[1], r[2]) for r in con.execute('select id, parent, w from K')}
             links = {tuple(r) for r in con.execute('select r, t from R_T')}
         finally: con.close()
@@ -210,7 +238,8 @@ def ref_apply(state, ops, idempotent_delete=False):
         if k in ('read', 'find'): row(op[1])
         elif k == 'write': row(op[1])[op[2]] = op[3]
         elif k == 'inc': row(op[1])[op[2]] = row(op[1])[op[2]] + 1
-        elif k == 'copy': row(op[1])[op[2]] = row(op[3])[op[4]] + 1
+        elif k == 'dec': row(op[1])[op[2]] = row(op[1])[op[2]] - 1
+        elif k == 'copy': row(op[1])[op[2]] = conv(op[2], row(op[3])[op[4]]) + 1
         elif k in ('flush', 'requery', 'commit', 'rollback', 'objflush'): pass
         elif k in ('lock', 'load', 'coll', 'rawread', 'lift', 'preload'): row(op[1])
         elif k == 'newrow':
@@ -288,7 +317,7 @@ def rows_by_unit(sess):
     for start, ops, end, idx in segments(sess):
         rows = set()
         for op in ops:
-            if op[0] in ('read', 'write', 'inc', 'find', 'lock', 'load', 'coll', 'rawread', 'lift', 'preload', 'newrow', 'delete', 'addtag', 'rmtag'):
+            if op[0] in ('read', 'write', 'inc', 'dec', 'find', 'lock', 'load', 'coll', 'rawread', 'lift', 'preload', 'newrow', 'delete', 'addtag', 'rmtag'):
                 rows.add(op[1])
             elif op[0] == 'copy': rows.add(op[1]); rows.add(op[3])
             elif op[0] == 'requery': rows.update((1, 2))
@@ -327,7 +356,7 @@ def states_equal(a, b, attrs=None):
 def touches_exempt(sess):
     """Session reads or writes an attribute the property excludes from optimistic checks, or locks objects."""
     for op in sess['ops']:
-        if op[0] in ('read', 'write', 'inc', 'rawread', 'find') and op[2] in EXEMPT_ATTRS: return True
+        if op[0] in ('read', 'write', 'inc', 'dec', 'rawread', 'find') and op[2] in EXEMPT_ATTRS: return True
         if op[0] == 'copy' and (op[2] in EXEMPT_ATTRS or op[4] in EXEMPT_ATTRS): return True
         if op[0] == 'lock': return True
     return False
@@ -389,6 +418,7 @@ def exec_op(model, run, step, op):
         try: v = thunk()
         except Exception as e:
             run.obs.append((step, key, ('exc', type(e).__name__))); raise
+        v = plain(v)
         run.obs.append((step, key, ('val', v)))
         return v
 
@@ -396,7 +426,7 @@ def exec_op(model, run, step, op):
         if model.track_marks and (run.unit, r) not in run.read_marks:
             run.read_marks[(run.unit, r)] = (model.rec.mark(), model.committed_state().get('R', {}).get(r))
 
-    if k in ('read', 'write', 'inc', 'find', 'lock', 'load', 'coll', 'rawread', 'lift', 'preload', 'newrow', 'delete'):
+    if k in ('read', 'write', 'inc', 'dec', 'find', 'lock', 'load', 'coll', 'rawread', 'lift', 'preload', 'newrow', 'delete'):
         run.first_touch.setdefault(op[1], run.unit)
     elif k == 'copy':
         run.first_touch.setdefault(op[1], run.unit); run.first_touch.setdefault(op[3], run.unit)
@@ -409,23 +439,23 @@ def exec_op(model, run, step, op):
         return v
     if k == 'find':
         r, a = op[1], op[2]
-        o = R.get(**{'id': r, a: INIT_R[r][a]})
+        o = R.get(**{'id': r, a: Model.pyvals({a: INIT_R[r][a]})[a]})
         if o is not None:
             run.obs.append((step, ('R', r, a), ('val', INIT_R[r][a])))
             mark_read(r)
         else: run.obs.append((step, ('find', r, a), ('val', None)))
         return
     if k == 'write':
-        setattr(R[op[1]], op[2], op[3]); return
-    if k == 'inc':
+        setattr(R[op[1]], op[2], Model.pyvals({op[2]: op[3]})[op[2]]); return
+    if k in ('inc', 'dec'):
         o = R[op[1]]
         v = observe(('R', op[1], op[2]), lambda: getattr(o, op[2]))
         mark_read(op[1])
-        setattr(o, op[2], v + 1); return
+        setattr(o, op[2], Model.pyvals({op[2]: v + (1 if k == 'inc' else -1)})[op[2]]); return
     if k == 'copy':
         v = observe(('R', op[3], op[4]), lambda: getattr(R[op[3]], op[4]))
         mark_read(op[3])
-        setattr(R[op[1]], op[2], (int(v) if op[2] != 'f' else v) + 1); return
+        setattr(R[op[1]], op[2], Model.pyvals({op[2]: conv(op[2], v) + 1})[op[2]]); return
     if k == 'flush':
         po.flush(); return
     if k in ('commit', 'rollback'):
@@ -448,7 +478,7 @@ def exec_op(model, run, step, op):
         else: raise ValueError(how)
         return
     if k == 'newrow':
-        R(id=op[1], code='R%d' % op[1], kb=7, kc=op[1], **NEW_R); return
+        R(id=op[1], code='R%d' % op[1], kb=7, kc=op[1], **Model.pyvals(NEW_R)); return
     if k == 'objflush':
         o = run.refs.get((op[1], op[2]))                 # a deleted object cannot be looked up again: use the reference
         if o is None: o = (R if op[1] == 'R' else K)[op[2]]
